@@ -862,6 +862,14 @@ def _push_row_index(interp, base, idx, st, node, depth=0):
     return binop(interp, _ELEMENTWISE[t.op], ops[0], ops[1], st, node)
 
 
+def whole_range(idx, n):
+    """the index vector arange(n) for an axis of extent n"""
+    t = idx.term if isinstance(idx, V) else idx
+    while isinstance(t, Term) and t.op == "astype" and len(t.args) == 2 and t.args[1] in ("int", const("int")):
+        t = t.args[0]
+    return isinstance(t, Term) and t.op == "arange" and len(t.args) == 1 and t.args[0] == dim_term(n)
+
+
 def subscript(interp, base, idx, st, node):
     if base.kind == "maybe":
         base = base.items[0] if base.items else V("unk", base.term, labels=base.labels, orig=base.orig)
@@ -871,6 +879,9 @@ def subscript(interp, base, idx, st, node):
         rows = subscript(interp, base, r_, st, node)
         return subscript(interp, rows, interp.mk_tuple([_full_slice(), c_]), st, node)
     labels = base.labels | idx.labels
+    if base.kind == "arr" and base.shape is not None and len(base.shape) >= 1 and whole_range(idx, base.shape[0]):
+        # a[np.arange(len(a))]: every entry, in order (a copy)
+        return V("arr", base.term, shape=base.shape, orig=frozenset([FRESH]), labels=labels, loc=fresh_id(), extra=base.extra if isinstance(base.extra, str) else None, dim=base.dim)
     if base.kind in ("tuple", "list") and base.items is not None:
         if idx.has_const and isinstance(idx.const, int):
             if -len(base.items) <= idx.const < len(base.items):
